@@ -185,12 +185,15 @@ func newEnv(thorough bool) *env {
 	konst("1", starlark.MakeInt(1))
 	konst("-1", starlark.MakeInt(-1))
 	konst("2^31-1", pow2(31, -1))
+	konst("2^31", pow2(31, 0))
 	konst("2^31+1", pow2(31, 1))
+	konst("-2^31", negpow2(31, 0)) // the one small int whose negation is not one
 	konst("-2^31+1", negpow2(31, 1))
 	konst("-2^31-1", negpow2(31, -1))
 	konst("2^62", pow2(62, 0))
 	konst("-2^62", negpow2(62, 0))
 	konst("2^63-1", pow2(63, -1))
+	konst("2^63", pow2(63, 0))
 	konst("2^63+1", pow2(63, 1))
 	konst("-2^63", negpow2(63, 0))
 	konst("-2^63+1", negpow2(63, 1))
